@@ -199,6 +199,38 @@ def forgeries(xml):
     return out
 
 
+XENC = 'http://www.w3.org/2001/04/xmlenc#'
+
+
+def open_encrypted(xml):
+    """(plain response xml, EncryptedData template, key identity) of a response whose assertion the stand-in tool encrypted"""
+    root = ET.fromstring(xml.encode('utf-8'))
+    ea = root.find(q(SAML, 'EncryptedAssertion'))
+    if ea is None:
+        return None
+    ed = ea.find(q(XENC, 'EncryptedData'))
+    cv = list(ed.iter(q(XENC, 'CipherValue')))[-1]
+    kid, _, clear = base64.b64decode(cv.text.strip()).partition(b'\n')
+    idx = list(root).index(ea)
+    root.remove(ea)
+    root.insert(idx, ET.fromstring(clear))
+    return ET.tostring(root, encoding='unicode'), ed, kid
+
+
+def reencrypt(xml, template, kid):
+    """every Assertion directly under the outermost Response goes back into an EncryptedAssertion for the same key"""
+    root = ET.fromstring(xml.encode('utf-8'))
+    for a in [c for c in list(root) if c.tag == q(SAML, 'Assertion')]:
+        ed = copy.deepcopy(template)
+        list(ed.iter(q(XENC, 'CipherValue')))[-1].text = base64.b64encode(kid + b'\n' + ET.tostring(a, encoding='utf-8')).decode('ascii')
+        ea = ET.Element(q(SAML, 'EncryptedAssertion'))
+        ea.append(ed)
+        idx = list(root).index(a)
+        root.remove(a)
+        root.insert(idx, ea)
+    return ET.tostring(root, encoding='unicode')
+
+
 def run(tier, seed):
     from pyvc import front     # noqa
     logging.disable(logging.CRITICAL)
@@ -211,7 +243,8 @@ def run(tier, seed):
     from bounded import xmlsec1_standin as tool
     helper = getattr(sigver, 'signature_is_enveloped', None)
     with Env() as env:
-        for sign_resp, sign_ass in ((True, False), (False, True), (True, True)):
+        for sign_resp, sign_ass, encrypted in ((True, False, False), (False, True, False), (True, True, False),
+                                               (False, True, True), (True, True, True)):
             for want_resp, want_ass in ((True, False), (False, True), (True, True)):
                 if (want_resp and not sign_resp) or (want_ass and not sign_ass):
                     continue        # the genuine message itself would not meet the requirement
@@ -223,7 +256,8 @@ def run(tier, seed):
                     resp = env.idp.create_authn_response(identity=dict((k, list(v)) for k, v in GOOD.items()), in_response_to=rid,
                                                          destination=ACS, sp_entity_id=SP_ID, name_id=name_id, userid='user-1',
                                                          authn={'class_ref': PASSWORDPROTECTEDTRANSPORT, 'authn_auth': 'https://idp.example.org/'},
-                                                         sign_response=sign_resp, sign_assertion=sign_ass)
+                                                         sign_response=sign_resp, sign_assertion=sign_ass,
+                                                         encrypt_assertion=encrypted)
                     return rid, (resp if isinstance(resp, str) else str(resp))
 
                 def read(xml, rid):
@@ -234,7 +268,8 @@ def run(tier, seed):
                     if ar is None:
                         return None, 'no response object'
                     return (ar.ava, getattr(ar.name_id, 'text', None)), None
-                label = 'IdP signs response=%s assertion=%s; SP wants response=%s assertions=%s' % (sign_resp, sign_ass, want_resp, want_ass)
+                label = 'IdP signs response=%s assertion=%s%s; SP wants response=%s assertions=%s' % (
+                    sign_resp, sign_ass, ', assertion encrypted' if encrypted else '', want_resp, want_ass)
                 try:
                     rid, xml = genuine()
                 except Exception as e:
@@ -247,7 +282,17 @@ def run(tier, seed):
                                        'what': 'the genuine signed response was not read as asserted: %r %r' % (got, err)})
                     continue
                 accepted_genuine += 1
-                for name, forged in [('genuine', xml)] + forgeries(xml):
+                if encrypted:
+                    # the rearrangements are made inside the ciphertext: open it, forge, encrypt every top-level assertion again
+                    opened = open_encrypted(xml)
+                    if opened is None:
+                        violations.append({'name': 'bounded[wrap-table:genuine]', 'case': label, 'what': 'no EncryptedAssertion in the response'})
+                        continue
+                    plain, template, kid = opened
+                    candidates = [('genuine', xml)] + [(nm + '+encrypted', reencrypt(f, template, kid)) for nm, f in forgeries(plain)]
+                else:
+                    candidates = [('genuine', xml)] + forgeries(xml)
+                for name, forged in candidates:
                     # the library's structural helper against an independent reading of the same document, for every ID in it
                     if helper is not None:
                         doc = ET.fromstring(forged.encode('utf-8'))
@@ -279,7 +324,7 @@ def run(tier, seed):
                                                    '(the signed response asserts subject %r and %r)' % (subject, ava, 'derek-subject', GOOD),
                                            'input': forged if len(forged) < 20000 else forged[:20000]})
     return {'name': 'wrap_table', 'label': 'BOUNDED (signature-wrapping rearrangements of a signed response, with a stand-in for xmlsec1; not a proof)',
-            'bound': '%d kinds of rearrangement x 3 signing modes x the SP settings each mode satisfies (of response / assertions / both required); '
-                     'plain assertions only; stand-in tool' % len(names),
+            'bound': '%d kinds of rearrangement (plain, and made inside the ciphertext of an encrypted assertion) x signing modes x the SP settings '
+                     'each mode satisfies (response / assertions / both required); stand-in tool' % len(names),
             'evaluations': n, 'genuine_accepted': accepted_genuine, 'forgeries_rejected': rejected,
             'helper_cross_checks': helper_cases, 'violations': violations[:40]}
